@@ -75,6 +75,13 @@
     (def p (os/spawn ["/bin/true"]))
     (c16/status-for (p :pid) w)
     (print "inject-close " n " ok " (os/proc-close p) " rc " (p :return-code)))
+  # two fibers wait for the same process at the same time: exactly one reaper, the second wait is refused at once
+  (let [p (os/spawn ["/bin/sh" "-c" "sleep 0.2; exit 5"] :p)
+        ch (ev/chan 2)]
+    (ev/spawn (ev/give ch (try (string "ok " (os/proc-wait p)) ([e] (string "err " e)))))
+    (ev/spawn (ev/give ch (try (string "ok " (os/proc-wait p)) ([e] (string "err " e)))))
+    (def got (sort @[(ev/take ch) (ev/take ch)]))
+    (print "inject-both 0 " (string/join got " | ") " rc " (p :return-code)))
   # a second wait is refused, the recorded code stays
   (let [p (os/spawn ["/bin/true"])]
     (c16/status-for (p :pid) (* 42 256))
